@@ -142,9 +142,9 @@ def run(ctx):
         dom_f = any(U.node_has_call(cfg, d, 'filter')
                     for d in cfg.dominators(x))
         if not dom_f:
-            g = cfg.guards(x)
-            ok = ok and bool(g) and g[0][1] is True and U.phas(
-                g[0][0], 'not issubclass(model, mb.MistralSecureModelBase)')
+            ok = ok and U.guarded(
+                cfg, x, 'issubclass(model, mb.MistralSecureModelBase)',
+                False)
     r1.check(ok, ctx.construct(sq, extra='filter on every secure path'),
              'a return of _secure_query for a secure model is not dominated '
              'by query.filter(criterion)', ctx.loc(sq))
@@ -362,8 +362,9 @@ def run(ctx):
             if x.kind == 'stmt' and isinstance(x.ast, ast.Raise) and \
                     x.ast.exc is not None and \
                     'DBEntityNotFoundError' in norm(x.ast.exc):
-                g = cfgf.guards(x)
-                if g and norm(g[0][0]).startswith('not ') and g[0][1]:
+                ga = U.guard_atoms(cfgf, x)
+                if ga and ga[0][1] is False and \
+                        isinstance(ga[0][0], ast.Name):
                     raising.add(f.name)
     if len(raising) < 10:
         raise AnalysisError('C15.R7: only %d raising getters' % len(raising))
@@ -417,9 +418,7 @@ def run(ctx):
     for x in gcfg.nodes:
         if x.kind == 'stmt' and isinstance(x.ast, ast.Return) and \
                 U.phas(x.ast.value, 'auth_ctx.ctx().project_id'):
-            g = [t for (t, pol, _g) in gcfg.guards(x)
-                 if isinstance(t, ast.expr) and pol]
-            okp = any(U.phas(t, 'CONF.pecan.auth_enable') for t in g)
+            okp = U.guarded(gcfg, x, '___.pecan.auth_enable', True)
     r6.check(okp,
              ctx.construct(gp), 'get_project_id no longer returns the '
              'context project when authentication is enabled', ctx.loc(gp))
@@ -430,11 +429,8 @@ def run(ctx):
     if not muts:
         raise AnalysisError('C15.R6: update_resource_member mutation lost')
     ok = False
-    for (t, pol, gn) in cfg.guards(muts[0]):
-        if isinstance(t, ast.expr) and norm(t) in (
-                'member_id != security.get_project_id()',
-                'security.get_project_id() != member_id') and not pol:
-            ok = True
+    ok = U.guarded(cfg, muts[0],
+                   'member_id == security.get_project_id()', True)
     r6.check(ok, ctx.construct(um, extra='only the member'),
              'membership status can be changed by someone other than the '
              'member', ctx.loc(um))
